@@ -290,7 +290,7 @@ def rule_d(ctx):
             pre_reads += [self_attr(x) for x in ast.walk(s) if isinstance(x, ast.Attribute) and self_attr(x)]
         if guard is None:
             ctx.ob(R, ca.qname, f"{k.name}: correct_array consults the active flag", False,
-                   f"the constructor stores self.active but correct_array never reads it: an inactive {k.name} still applies (or fails on attributes only set when active)", ca.node)
+                   f"the constructor stores self.active but correct_array never reads it: an inactive {k.name} still applies (or fails on attributes only set when active)", ca.node, evidence=True)
             continue
         ctx.ob(R, ca.qname, f"{k.name}: correct_array consults the active flag", True, "", guard)
         inactive = guard.orelse if norm(guard.test) == "self.active" else guard.body
